@@ -44,6 +44,11 @@ fn time_budget(n: usize) -> Duration {
     Duration::from_millis(20_000 + (n as u64) / 10)
 }
 
+/// worker threads left behind (parked by the allocator guard, or spinning); beyond `MAX_STUCK` the
+/// remaining cases of the run are skipped — the run has failed already.
+static STUCK: std::sync::atomic::AtomicUsize = std::sync::atomic::AtomicUsize::new(0);
+const MAX_STUCK: usize = 12;
+
 thread_local! {
     static LAST_PANIC: std::cell::RefCell<String> = const { std::cell::RefCell::new(String::new()) };
 }
@@ -363,6 +368,7 @@ fn sweep(dump: &Dump, o: &mut Out) {
             let _ = m.process_create_time();
         });
     }
+    let mut nctx = 0u32;
     o.guard("MinidumpThreadList accessors/print", || {
         if let Ok(l) = dump.get_stream::<MinidumpThreadList>() {
             let _ = l.print(&mut sink, mem.as_ref(), sys.as_ref(), misc.as_ref(), false);
@@ -372,6 +378,7 @@ fn sweep(dump: &Dump, o: &mut Out) {
                 let _ = l.get_thread(t.raw.thread_id);
                 if let Some(s) = &sys {
                     if let Some(ctx) = t.context(s, misc.as_ref()) {
+                        nctx += 1;
                         let _ = ctx.print(&mut sink);
                         let _ = ctx.get_instruction_pointer();
                         let _ = ctx.get_stack_pointer();
@@ -390,6 +397,9 @@ fn sweep(dump: &Dump, o: &mut Out) {
             }
         }
     });
+    if nctx > 0 {
+        o.tags.push(format!("thread-context-printed={:?}", cpu));
+    }
     o.guard("MinidumpModuleList accessors/print", || {
         if let Ok(l) = dump.get_stream::<MinidumpModuleList>() {
             let _ = l.print(&mut sink);
@@ -709,20 +719,59 @@ fn rand_name(rng: &mut Rng) -> String {
     s
 }
 
+/// The CPU context records `MinidumpContext::read` knows: (processor_architecture, wire size,
+/// CPU bit of context_flags, offset of context_flags, context_flags is 64 bits wide).
+fn arch_table() -> Vec<(u16, usize, u32, usize, bool)> {
+    use scroll::ctx::SizeWith;
+    let le = scroll::LE;
+    vec![
+        (0, md::CONTEXT_X86::size_with(&le), 0x10000, 0, false),
+        (10, md::CONTEXT_X86::size_with(&le), 0x10000, 0, false),
+        (9, md::CONTEXT_AMD64::size_with(&le), 0x100000, 48, false),
+        (3, md::CONTEXT_PPC::size_with(&le), 0x2000_0000, 0, false),
+        (0x8002, md::CONTEXT_PPC64::size_with(&le), 0x100_0000, 0, true),
+        (0x8001, md::CONTEXT_SPARC::size_with(&le), 0x1000_0000, 0, false),
+        (5, md::CONTEXT_ARM::size_with(&le), 0x4000_0000, 0, false),
+        (12, md::CONTEXT_ARM64::size_with(&le), 0x40_0000, 0, false),
+        (0x8003, md::CONTEXT_ARM64_OLD::size_with(&le), 0x8000_0000, 0, true),
+        (1, md::CONTEXT_MIPS::size_with(&le), 0x4_0000, 0, false),
+    ]
+}
+
+/// A context record that `MinidumpContext::read` accepts for the given architecture: right size,
+/// right CPU bit in `context_flags`, arbitrary register contents.
+fn context_blob(arch: (u16, usize, u32, usize, bool), be: bool, rng: &mut Rng) -> Vec<u8> {
+    let (_, size, bit, at, wide) = arch;
+    let fill = rng.below(3);
+    let mut b: Vec<u8> = (0..size)
+        .map(|_| match fill {
+            0 => 0,
+            1 => 0xff,
+            _ => rng.next() as u8,
+        })
+        .collect();
+    let flags = bit | (rng.below(0x40) as u32);
+    if wide {
+        let v = flags as u64;
+        b[at..at + 8].copy_from_slice(&if be { v.to_be_bytes() } else { v.to_le_bytes() });
+    } else {
+        b[at..at + 4].copy_from_slice(&if be { flags.to_be_bytes() } else { flags.to_le_bytes() });
+    }
+    b
+}
+
 /// A valid dump built with minidump-synth: a random subset of every stream kind it supports.
 fn synth_dump(rng: &mut Rng, be: bool) -> Vec<u8> {
     let e = tend(be);
     let mut d = synth::SynthMinidump::with_endian(e);
     let mut extra: Vec<Section> = Vec::new();
     // system info first (it steers how the others are interpreted)
-    if rng.chance(3, 4) {
-        let archs = [0u16, 9, 5, 12, 3, 0x8003, 0x8001, 0x8002, 1, 6, 0xffff];
-        let plats = [2u32, 0x8101, 0x8201, 0x8203, 0x8102, 0x8204, 1, 0xdead];
-        d = d.add_system_info(
-            synth::SystemInfo::new(e)
-                .set_processor_architecture(*rng.pick(&archs))
-                .set_platform_id(*rng.pick(&plats)),
-        );
+    let table = arch_table();
+    let arch = *rng.pick(&table);
+    if rng.chance(7, 8) {
+        let plats = [2u32, 3, 0x8101, 0x8201, 0x8203, 0x8102, 0x8204, 1, 0xdead];
+        let pa = if rng.chance(1, 10) { *rng.pick(&[6u16, 0x8004, 0xffff]) } else { arch.0 };
+        d = d.add_system_info(synth::SystemInfo::new(e).set_processor_architecture(pa).set_platform_id(*rng.pick(&plats)));
     }
     // memory + threads
     let nthreads = rng.below(4);
@@ -732,11 +781,12 @@ fn synth_dump(rng: &mut Rng, be: bool) -> Vec<u8> {
             Section::with_endian(e).append_repeated(rng.below(256) as u8, stack_len),
             0x1000_0000 + 0x10000 * t,
         );
-        let ctx = match rng.below(4) {
+        let ctx = match rng.below(8) {
             0 => synth::x86_context(e, 0xabcd1234, 0x1010),
             1 => synth::amd64_context(e, 0x1234abcd1234abcd, 0x1000000010000000),
             2 => synth::arm64_context(e, 0x1234abcd1234abcd, 0x1000000010000000),
-            _ => Section::with_endian(e).append_repeated(0x5a, rng.below(64) as usize),
+            3 => Section::with_endian(e).append_repeated(0x5a, rng.below(64) as usize),
+            _ => Section::with_endian(e).append_bytes(&context_blob(arch, be, rng)),
         };
         let thread = synth::Thread::new(e, 0x100 + t as u32 * (1 + rng.below(2) as u32), &stack, &ctx);
         d = d.add_thread(thread).add(ctx);
@@ -921,6 +971,58 @@ fn crafted_dump(rng: &mut Rng, be: bool) -> Vec<u8> {
     w.u64(0);
     let mut dir: Vec<(u32, u32, u32)> = Vec::new(); // (type, size, rva)
 
+    // system info + one context record of the matching architecture
+    let table = arch_table();
+    let arch = *rng.pick(&table);
+    let ctx_blob = context_blob(arch, be, rng);
+    let ctx_at = w.here();
+    w.buf.extend_from_slice(&ctx_blob);
+    if rng.chance(5, 6) {
+        let at = w.here();
+        let put16 = |w: &mut W, v: u16| {
+            if w.be {
+                w.buf.extend_from_slice(&v.to_be_bytes())
+            } else {
+                w.buf.extend_from_slice(&v.to_le_bytes())
+            }
+        };
+        put16(&mut w, arch.0);
+        put16(&mut w, 6);
+        put16(&mut w, 0x0102);
+        w.buf.push(4);
+        w.buf.push(1);
+        w.u32(10);
+        w.u32(0);
+        w.u32(19041);
+        w.u32(*rng.pick(&[2u32, 3, 0x8101, 0x8102, 0x8201, 0x8203, 0x8204, 7]));
+        w.u32(*rng.pick(&[0u32, 0, ctx_at, u32::MAX]));
+        put16(&mut w, 0);
+        put16(&mut w, 0);
+        for _ in 0..24 {
+            w.buf.push(rng.next() as u8);
+        }
+        dir.push((7, w.here() - at, at));
+    }
+    // a thread list whose contexts are that record
+    if rng.chance(2, 3) {
+        let at = w.here();
+        let n = 1 + rng.below(2) as u32;
+        w.u32(n);
+        for i in 0..n {
+            w.u32(0x200 + i);
+            w.u32(0);
+            w.u32(0);
+            w.u32(0);
+            w.u64(*rng.pick(&[0u64, 0x7ffd_e000, u64::MAX, u64::MAX - 100]));
+            w.u64(0xa000_0000);
+            w.u32(*rng.pick(&[64u32, 0, u32::MAX]));
+            w.u32(*rng.pick(&[ctx_at, 0, 32]));
+            w.u32(ctx_blob.len() as u32);
+            w.u32(ctx_at);
+        }
+        dir.push((3, w.here() - at, at));
+    }
+
     // strings
     let s_type = w.utf16("Event");
     let s_obj = w.utf16(&rand_name(rng));
@@ -1028,8 +1130,13 @@ fn crafted_dump(rng: &mut Rng, be: bool) -> Vec<u8> {
         for k in 0..15u64 {
             w.u64(k * 0x1111_1111_1111);
         }
-        w.u32(*rng.pick(&[0u32, 16, u32::MAX]));
-        w.u32(*rng.pick(&[0u32, 32, at, u32::MAX]));
+        if rng.chance(2, 3) {
+            w.u32(ctx_blob.len() as u32);
+            w.u32(ctx_at);
+        } else {
+            w.u32(*rng.pick(&[0u32, 16, u32::MAX]));
+            w.u32(*rng.pick(&[0u32, 32, at, u32::MAX]));
+        }
         dir.push((6, w.here() - at, at));
     }
     // memory list whose descriptors point at themselves / the directory
@@ -1267,6 +1374,9 @@ impl Engine for Read {
     }
 
     fn same(&self, impl_out: &str, model_out: &str) -> bool {
+        if impl_out == "SKIPPED" {
+            return true;
+        }
         let (Some((il, ir)), Some((ml, mr))) = (impl_out.split_once(" ## "), model_out.split_once(" ## ")) else {
             return false;
         };
@@ -1305,6 +1415,10 @@ impl Engine for Read {
             return ImplResult { out: "bad-case".into(), oracle: vec![("bad-case".into(), case.chars().take(80).collect())], ..Default::default() };
         };
         let n = bytes.len();
+        if STUCK.load(std::sync::atomic::Ordering::SeqCst) >= MAX_STUCK {
+            // earlier cases left stuck worker threads behind (each already reported as a violation)
+            return ImplResult { out: "SKIPPED".into(), tags: vec!["skipped-after-stuck-workers".into()], ..Default::default() };
+        }
         let shared = Arc::new(meter::Shared::default());
         let (tx, rx) = mpsc::channel();
         let (sh2, b2) = (shared.clone(), bytes.clone());
@@ -1320,8 +1434,21 @@ impl Engine for Read {
         let mut res = ImplResult::default();
         res.tags.push(format!("cat={cat}"));
         res.tags.push(size_bucket(n).to_string());
-        match rx.recv_timeout(time_budget(n)) {
-            Ok(r) => {
+        // poll: a worker parked by the allocator guard is reported at once, a silent one when the
+        // time budget is used up
+        let outcome = loop {
+            match rx.recv_timeout(Duration::from_millis(10)) {
+                Ok(r) => break Some(r),
+                Err(mpsc::RecvTimeoutError::Disconnected) => break None,
+                Err(mpsc::RecvTimeoutError::Timeout) => {
+                    if shared.runaway_request.load(std::sync::atomic::Ordering::SeqCst) != 0 || t0.elapsed() > time_budget(n) {
+                        break None;
+                    }
+                }
+            }
+        };
+        match outcome {
+            Some(r) => {
                 let _ = worker.join();
                 let reqs: Vec<String> = r.a.log.iter().map(|x| x.to_string()).collect();
                 res.out = format!("{} ## req:{}{}", r.line, reqs.join(","), if r.a.log_overflow { "+" } else { "" });
@@ -1344,16 +1471,21 @@ impl Engine for Read {
                     res.tags.push("slow>2s".into());
                 }
             }
-            Err(_) => {
-                // the worker is stuck: parked by the allocator guard, or looping. It is leaked.
+            None => {
+                // the worker is stuck: parked by the allocator guard, or looping. It is leaked
+                // (with whatever it holds), so only a bounded number of them is tolerated.
+                STUCK.fetch_add(1, std::sync::atomic::Ordering::SeqCst);
                 let req = shared.runaway_request.load(std::sync::atomic::Ordering::SeqCst);
                 if req != 0 {
                     let total = shared.runaway_total.load(std::sync::atomic::Ordering::SeqCst);
                     res.out = "RUNAWAY-ALLOC".into();
                     res.oracle.push((
                         "alloc-runaway".into(),
-                        format!("a {n}-byte input made the reader request {req} bytes at once ({total} bytes requested in total) — stopped by the allocator guard"),
+                        format!("a {n}-byte input made the reader request {req} bytes at once / {total} bytes in total — stopped by the allocator guard (single > {} or total > {})", meter::HARD_SINGLE, meter::HARD_TOTAL),
                     ));
+                } else if worker.is_finished() {
+                    res.out = "WORKER-DIED".into();
+                    res.oracle.push(("panic".into(), "the case thread died outside catch_unwind (stack overflow / abort path)".into()));
                 } else {
                     res.out = "HANG".into();
                     res.oracle.push(("hang".into(), format!("no result within {:?} for a {n}-byte input", time_budget(n))));
